@@ -3,7 +3,7 @@
 from __future__ import annotations
 
 from .. import core
-from ._store_machine import StoreMachine
+from ._store_machine import StoreMachine, plan_strategy, replay_any, run_plan
 
 SHARDED = True
 
@@ -28,8 +28,9 @@ def run(ctx: core.Ctx):
         'eviction state is observed through the cache object (membership, currsize) only to label cases and to decide '
         'whether an in-memory refusal was due',
     ]
-    core.run_machine(ctx, C07Machine, max_examples=ctx.n(100, 400), steps=40)
+    core.run_machine(ctx, C07Machine, max_examples=ctx.n(30, 250), steps=40)
+    core.run_given(ctx, plan_strategy(), lambda p: run_plan(C07Machine, ctx, p), ctx.n(50, 300), salt=20)
 
 
 def replay(ctx: core.Ctx, case):
-    core.replay_machine(C07Machine, ctx, case)
+    replay_any(C07Machine, ctx, case)
